@@ -9,7 +9,8 @@ from ..refmodels import equil
 
 ELEMENTS = ['C', 'H', 'O', 'N']
 NOISE = ('Values in x were outside bounds', 'invalid value encountered', 'divide by zero encountered',
-         'overflow encountered', 'underflow encountered')
+         'overflow encountered', 'underflow encountered',
+         'Requested temperature')      # a species evaluated outside its fitted range says so: not a statement about convergence
 
 # calibrated on the unchanged tree (see DESIGN 3.16): worst observed x >= 10 margin
 # observed maxima over 6916 judged solves on the repaired tree: balance 2e-13, dG 9.3e-11, KKT 9.5e-5, amounts 9.5e-5
@@ -22,8 +23,9 @@ DEEP_TRACE = 1e-6       # known finding C16-deep-trace: see TRIGGERS (stalls see
 
 
 def g_of(d, T):
-    """Reference G/RT of a generated species descriptor (constant-Cp NASA-7)."""
-    return d['cp'] * (1.0 - math.log(T)) + d['h'] / T - d['s']
+    """Reference G/RT of a generated species descriptor (NASA-7 with Cp/R = cp + a1 T)."""
+    a1 = d.get('a1', 0.0)
+    return d['cp'] * (1.0 - math.log(T)) + d['h'] / T - d['s'] - 0.5 * a1 * T
 
 
 class WorldC16(World):
@@ -36,7 +38,7 @@ class WorldC16(World):
               'solver-raise-fired', 'early-stop-oracle-sensitive', 'natural-nonconvergence', 'span>=30', 'rank-deficient-network',
               'trace-species-present', 'loaded-from-thermdat', 'load-read-fault', 'high-pressure', 'low-pressure',
               'twelve-species', 'four-elements', 'optimality-judged', 'deep-trace-not-judged', 'solver-exit-mode-fired',
-              'thermdat-rewritten-in-place', 'corrupt-file-refused', 'solve-with-nan-thermo')
+              'thermdat-rewritten-in-place', 'corrupt-file-refused', 'solve-with-nan-thermo', 'above-a-species-fitted-range')
     REAL = ('pmutt.equilibrium.Equilibrium (constructor, get_net_comp, from_thermdat)', 'scipy.optimize.minimize(SLSQP)',
             'pmutt.io.thermdat reader/writer', 'pmutt.empirical.nasa.Nasa')
     SIMULATED = ('solver outcome policy at the pmutt.equilibrium._equilibrium.minimize seam (pass, iteration cap, early stop, raise, give up with SLSQP exit mode 3-9 part-way)',
@@ -113,6 +115,10 @@ class WorldC16(World):
             g1000 = rng.uniform(-sw['span'] / 2, sw['span'] / 2)
             h = round((g1000 - cp * (1.0 - math.log(1000.0)) + s) * 1000.0, 2)
             species.append({'name': name[:15], 'comp': comp, 'cp': cp, 'h': h, 's': s})
+            if rng.random() < 0.3:
+                species[-1]['a1'] = round(rng.uniform(-5e-4, 2e-3), 7)      # a heat capacity that changes with temperature
+            if rng.random() < 0.15:
+                species[-1]['T_high'] = 1500.0      # fitted up to 1500 K only: above it the object extrapolates (and says so)
         # make sure every element occurs
         present = set(e for d in species for e in d['comp'])
         for e in els:
@@ -193,9 +199,9 @@ class WorldC16(World):
 
     # ------------------------------------------------------------------ helpers
     def _nasa(self, d):
-        a = [d['cp'], 0.0, 0.0, 0.0, 0.0, d['h'], d['s']]
+        a = [d['cp'], d.get('a1', 0.0), 0.0, 0.0, 0.0, d['h'], d['s']]
         return self.nasa.Nasa(name=d['name'], elements=dict(d['comp']), phase='G', T_low=200.0, T_mid=1000.0,
-                              T_high=3000.0, a_low=list(a), a_high=list(a))
+                              T_high=float(d.get('T_high', 3000.0)), a_low=list(a), a_high=list(a))
 
     def _construct(self, a, species, feed, order, fault):
         ordered = [species[i] for i in order]
@@ -378,6 +384,8 @@ class WorldC16(World):
             ctx.probe('low-pressure')
         if self._span(m['species'], T) >= 30:
             ctx.probe('span>=30')
+        if any(T > d.get('T_high', 3000.0) for d in m['species']):
+            ctx.probe('above-a-species-fitted-range')
         kind = policy['kind'] if policy else None
         st, val, ws, results = self._run(eq, T, P, policy)
         m['solves'] += 1
